@@ -31,4 +31,25 @@ PROPS = {
                      bins={"BRIDGE_FRONTEND": "utils/tcpbridge/tcp-bridge-frontend", "BRIDGE_BACKEND": "utils/tcpbridge/tcp-bridge-backend"})],
         assumptions=["gorilla/websocket delivers messages in order, intact", "the two io.Copy loops per side are the only users of each connection"],
     ),
+    "C18": dict(
+        technique="Lean 4 theorems on the regenerated mostSpecificMatchingBackend (goextract T2, glue lemma to a readable fold) and on a hand model of LookupBackend; bounded-exhaustive + random differential run of the real function against the regenerated definition and a brute-force oracle",
+        level_text="Proof for all paths, all backend lists with arbitrary (overlapping, nested, duplicate, empty) prefixes: the chosen backend owns a longest matching prefix and is the first such in order; none iff nothing matches; user backends take precedence over shared ones; liveness window of 5 minutes; no second-best fall-back; dependence only on (backends, last-seen, user, path, now). The longest-prefix theorems are about the definition regenerated from store.go on every run.",
+        level_note=STD_NOTE + "Modelled, not verified: LookupBackend/lookupSharedBackend/hasBackend are hand-modelled (Model/Route.lookup) and compared with the real functions over a fake datastore (suite applookup); datastore query semantics (equality filter, key order) are the fake's; time.Since is the model's `now`.",
+        suites=[dict(driver="lib", suite="route")],
+        assumptions=["datastore equality filters return exactly the matching entities in key order (fake datastore)", "backend IDs are non-empty (parseBackend rejects empty IDs)"],
+    ),
+    "C04": dict(
+        technique="Lean 4 theorems: groupcache LRU = truncated recency order, hence exactly-once forwarding inside the dedup window for every reply history; invariant of the proxy's unbuffered hand-off over all interleavings; skeleton facts (T3) of the polling loop and the hand-off; differential runs of the real lru.Cache and the real polling loop against the model",
+        level_text="Proof for every history of pending-list replies (any repeats, order, grouping) that each ID is forwarded exactly once when every repeat falls inside the 1000-entry window (full-strength window condition, plus the property's 'at most 1000 distinct outstanding' as a corollary), with a proved counter-example just outside the window; proof over all interleavings of arrivals, cancellations and polls by any number of pollers that each ID is handed to exactly one list reply. Loop/hand-off structure and the constant 1000 are regenerated from the source on every run.",
+        level_note=STD_NOTE + "Modelled, not verified: groupcache/lru (hand model Base/Lru, compared with the real cache on every run), the Go channel semantics of the unbuffered hand-off (one receive completes exactly one sender), goroutine start. Worker retry counts are checked by the dedup suite, not proved.",
+        suites=[dict(driver="lib", suite="lru"), dict(driver="agent", suite="dedup", env={"VERIF_DRIVER": "1"}, race="thorough")],
+        assumptions=["an unbuffered Go channel hands each sent value to exactly one receiver", "request IDs generated by the proxy are unique (see C01)"],
+    ),
+    "C06": dict(
+        technique="Lean 4 theorems: replay-buffer invariant by induction over all read/seek sequences (seek guard regenerated by goextract T2), attempt loop LTS with fault scripts; differential run of the real bufferedReadSeeker and fault-scripted uploads through the real forwarder",
+        level_text="Proof for every sequence of reads (any sizes, any source chunking) and seeks that the bytes handed to the transport since the last accepted seek are a prefix of the serialised stream from its first byte and the whole stream once caught up; a seek is accepted exactly while fewer than 4096 bytes were read, and then the full prefix is replayable. The refusal test is the definition regenerated from utils.go.",
+        level_note=STD_NOTE + "Modelled, not verified: the wrapped source (io.Pipe), http.Client/Transport behaviour on errors (it may keep reading the body after RoundTrip returned: known finding D5 when a retry overlaps that reader).",
+        suites=[dict(driver="lib", suite="seeker")],
+        assumptions=["within one attempt the transport is the only reader of the body (violated by the real transport after an early error reply: known finding)"],
+    ),
 }
